@@ -250,6 +250,8 @@ def run_shard(spec):
         states = ",".join(sorted({g["activity"] for g in c["gateways"]}))
         if td["seconds"] > bound:
             res.violation(f"terminate-too-slow:{'via' if c['has_via'] else 'direct'}", f"{key}: {td['seconds']}s > bound {bound}s")
+        if td.get("raised"):
+            res.violation("terminate-raised:" + td["raised"].split(":", 1)[0], f"{key}: {td['raised']}")
         if td["len_group"] != 0:
             res.violation("group-not-empty-after-terminate", f"{key}: len(group)={td['len_group']}")
         if r.get("local_alive"):
